@@ -131,6 +131,11 @@ def run(R):
                     conds.add("text-format")
                 if "OutputFormat as core::cmp::PartialEq>::ne" in sn and val is False:
                     conds.add("text-format")
+            for key_, val in fa.at(c.bb):
+                a_ = fa.atoms.get(key_, {})
+                # `match self.format { OutputFormat::Text if lone => ..` tests the format by its discriminant
+                if a_.get("kind") == "discr" and (a_.get("adt") or "").endswith("executor::OutputFormat") and val == "Text":
+                    conds.add("text-format")
             if "named-input" in conds or "len==1" in conds and "text-format" in conds:
                 lone.append((c, conds))
     if not lone:
